@@ -170,6 +170,11 @@ def oracle_c02(ck, ctx, run):
 
 
 def oracle_c11(ck, ctx, run):
+    if run.exc is None and ctx["strategy"] != "check-only" and tc_len(ctx["tc"]) == 0 and (
+            run.seen or run.rc != 0 or run.writes):
+        ck.violation(f"nothing to reduce (no reducible atom) but {run.tests} test(s) ran, status {run.rc}, "
+                     f"{run.writes} write(s); expected no test and status 0", replay_doc(ctx, run))
+        return
     if run.exc is not None or not run.seen:
         if run.exc is None and not run.seen and ctx["strategy"] != "check-only":
             # nothing to reduce: no test, rc 0
@@ -217,6 +222,10 @@ def oracle_c12(ck, ctx, run):
 
 def oracle_c04(ck, ctx, run):
     if ctx["strategy"] not in CHUNK_STRATS or ctx["cfg"].get("move"):
+        return
+    if ctx["load"] and content(ctx["tc"]) != ctx["file0"]:
+        ck.violation(f"the loaded testcase {content(ctx['tc'])!r} is not the original file {ctx['file0']!r}: every "
+                     f"candidate is built from altered bytes", replay_doc(ctx, run))
         return
     for k, data, a in run.seen:
         if not is_subred(ctx["tc"], data):
